@@ -83,9 +83,15 @@ def run(chk):
     for name in ("norm", "get_Schmidt_values"):
         f = O.methods[name]
         me = f.params[0]
-        cp = [x for x in ast.walk(f.node) if isinstance(x, ast.Assign) and isinstance(x.value, ast.Call) and A.text(x.value.func) == f"{me}.shallow_copy"]
+        def root(v):
+            while isinstance(v, ast.Call) and isinstance(v.func, ast.Attribute) and v.func.attr.endswith("_") and not v.func.attr.endswith("__"):
+                v = v.func.value
+            return v
+        cp = [x for x in ast.walk(f.node) if isinstance(x, ast.Assign) and isinstance(root(x.value), ast.Call)
+              and A.text(root(x.value).func) == f"{me}.shallow_copy"]
         inplace = [c for c in A.calls(f.node) if isinstance(c.func, ast.Attribute) and c.func.attr.endswith("_") and not c.func.attr.endswith("__")]
-        ok = bool(cp) and all(A.text(c.func.value) == cp[0].targets[0].id for c in inplace)
+        # every in-place sweep acts on the copy: its receiver chain is rooted in the copy's name or in the shallow_copy() call itself
+        ok = bool(cp) and all(A.text(root(c.func.value)) in (cp[0].targets[0].id, f"{me}.shallow_copy()") for c in inplace)
         chk.verdict("P2", f, f"{f.short}: in-place sweeps run on `{cp[0].targets[0].id if cp else '?'}`", True if ok else False,
                     f"{f.short}() runs an in-place algorithm on the receiver instead of a shallow copy")
 
